@@ -16,5 +16,6 @@ INVARIANT XsdComplete
 INVARIANT NothingAlien
 INVARIANT ProjectionSound
 INVARIANT TableBalanced
+INVARIANT GenClosed
 PROPERTY GenMonotone
 CHECK_DEADLOCK FALSE
